@@ -57,6 +57,29 @@ Proof.
   specialize (HB _ Hin). simpl in *. apply length_slice; tauto.
 Qed.
 
+Lemma mono_ge_hd : forall t a x, mono (a :: t) -> In x (a :: t) -> a <= x.
+Proof.
+  induction t as [|b t IH]; intros a x Hm [<-|Hin]; try lia; [destruct Hin|].
+  destruct Hm as [Hab Hm]. specialize (IH b x Hm Hin). lia.
+Qed.
+
+Lemma diffs_map_sub : forall o h, mono o -> (forall x, In x o -> h <= x) ->
+  diffs (map (fun x => x - h) o) = diffs o.
+Proof.
+  induction o as [|a [|b t] IH]; intros h Hm Hge; try reflexivity.
+  change (map (fun x => x - h) (a :: b :: t)) with ((a - h) :: (b - h) :: map (fun x => x - h) t).
+  rewrite !diffs_cons2. f_equal.
+  - assert (h <= a) by (apply Hge; left; reflexivity).
+    assert (h <= b) by (apply Hge; right; left; reflexivity). destruct Hm as [Hab _]. lia.
+  - apply (IH h); [apply (mono_tail _ _ Hm)|]. intros x Hx. apply Hge. right. exact Hx.
+Qed.
+
+Lemma diffs_rebase o : mono o -> diffs (rebase o) = diffs o.
+Proof.
+  intros Hm. unfold rebase. destruct o as [|a t]; [reflexivity|].
+  apply diffs_map_sub; [exact Hm|]. intros x Hx. simpl hd. apply (mono_ge_hd t a x Hm Hx).
+Qed.
+
 Lemma wf_larr_b_spec n l : wf_larr_b n l = true ->
   length (offs l) = S n /\ length (lvalid l) = n /\ mono (offs l) /\ last (offs l) 0 <= length (child l).
 Proof.
@@ -202,9 +225,11 @@ Proof.
   inversion Hall as [|? ? Hc Hcs]; subst. simpl. rewrite (IH sch Hne Hcs).
   destruct Hc as (Hwf & Hrest).
   destruct (chunk_first_field sch c Hne Hwf) as (f0 & t & Ef).
-  unfold m_transpose_sl. rewrite Ef. simpl. f_equal. f_equal.
-  unfold chunk_cols. rewrite Ef. simpl. symmetry. apply field_rows_lengths.
-  apply (chunk_field_ok sch c f0); [unfold chunk_ok; tauto|rewrite Ef; left; reflexivity].
+  assert (Hf0 : field_ok (svalid c) (farr f0))
+    by (apply (chunk_field_ok sch c f0); [unfold chunk_ok; tauto|rewrite Ef; left; reflexivity]).
+  unfold m_transpose_sl. rewrite Ef. cbn [res_bind ls_offs]. f_equal. f_equal.
+  unfold chunk_cols. rewrite Ef. cbn [map nth]. rewrite (field_rows_lengths _ _ Hf0).
+  apply diffs_rebase. destruct Hf0 as (Hw & _). apply wf_larr_b_spec in Hw. tauto.
 Qed.
 
 Lemma first_col_abs p : ctype p <> [] ->
@@ -389,7 +414,7 @@ Proof.
 Qed.
 
 Lemma same_offsets_spec c f0 t f : sfields c = f0 :: t -> same_offsets_b c = true -> In f (sfields c) ->
-  offs (farr f) = offs (farr f0).
+  rebase (offs (farr f)) = rebase (offs (farr f0)).
 Proof.
   intros E H Hin. unfold same_offsets_b in H. rewrite E in H, Hin. destruct Hin as [<-|Hin]; [reflexivity|].
   rewrite forallb_forall in H. specialize (H f Hin).
@@ -417,10 +442,13 @@ Proof.
   - unfold chunk_cols.
     erewrite (nth_error_nth (map _ (sfields c)) k) by (rewrite nth_error_map, Ef; reflexivity).
     erewrite (nth_error_nth (map _ (sfields c)) 0) by (rewrite nth_error_map, Ef0; reflexivity).
-    rewrite !field_rows_lengths.
-    + f_equal. apply (same_offsets_spec c f0 t f Ef0 Hso). eapply nth_error_In; eauto.
-    + apply (chunk_field_ok (ctype p) c f0 Hck). rewrite Ef0. left. reflexivity.
-    + apply (chunk_field_ok (ctype p) c f Hck). eapply nth_error_In; eauto.
+    assert (Hf0 : field_ok (svalid c) (farr f0)) by (apply (chunk_field_ok (ctype p) c f0 Hck); rewrite Ef0; left; reflexivity).
+    assert (Hf : field_ok (svalid c) (farr f)) by (apply (chunk_field_ok (ctype p) c f Hck); eapply nth_error_In; eauto).
+    rewrite (field_rows_lengths _ _ Hf0), (field_rows_lengths _ _ Hf).
+    destruct Hf0 as (Hw0 & _). apply wf_larr_b_spec in Hw0 as (_ & _ & Hm0 & _).
+    destruct Hf as (Hw & _). apply wf_larr_b_spec in Hw as (_ & _ & Hm & _).
+    rewrite <- (diffs_rebase _ Hm0), <- (diffs_rebase _ Hm). f_equal.
+    apply (same_offsets_spec c f0 t f Ef0 Hso). eapply nth_error_In; eauto.
   - apply nth_error_None in Ef. rewrite (chunk_nfields _ _ Hwf) in Ef. lia.
 Qed.
 
